@@ -384,3 +384,35 @@ func (p *Program) FieldOfExternal(pkgPath, typ, field string) *types.Var {
 	}
 	return found
 }
+
+// FieldDeep resolves a chain of fields starting at struct type typ of package rel
+// (e.g. FieldDeep("", "SettingEngine", "dtls", "clientAuth")); intermediate fields may be
+// anonymous struct types or pointers to structs.
+func (p *Program) FieldDeep(rel, typ string, path ...string) *types.Var {
+	n := p.Named(rel, typ)
+	if n == nil {
+		return nil
+	}
+	var t types.Type = n
+	var f *types.Var
+	for _, name := range path {
+		if pt, ok := t.Underlying().(*types.Pointer); ok {
+			t = pt.Elem()
+		}
+		st, ok := t.Underlying().(*types.Struct)
+		if !ok {
+			return nil
+		}
+		f = nil
+		for i := 0; i < st.NumFields(); i++ {
+			if st.Field(i).Name() == name {
+				f = st.Field(i)
+			}
+		}
+		if f == nil {
+			return nil
+		}
+		t = f.Type()
+	}
+	return f
+}
